@@ -1,12 +1,15 @@
 // Package guard uses the VM probe hook to keep in-process campaigns alive:
 // it aborts a run right before an operation that the properties exclude and
 // that would otherwise take the test process down (creation of a cyclic
-// container - open finding F10 -, an unbounded single allocation), and it
+// container - open finding F10 -, an unbounded single allocation, a traversal
+// of a value whose expansion as a tree is huge because parts of it are shared
+// many times), and it
 // enforces an instruction budget. Aborted cases are counted, never judged.
 package guard
 
 import (
 	"errors"
+	"math"
 	"sync/atomic"
 	"unsafe"
 
@@ -29,6 +32,8 @@ const (
 	opSetSelLocal  = 28
 	opSetSelFree   = 33
 	opBinaryOp     = 40
+	opEqual        = parser.OpEqual
+	opNotEqual     = parser.OpNotEqual
 	tokAdd         = 11 // token.Add, checked at init
 )
 
@@ -37,6 +42,7 @@ type State struct {
 	Budget      int64
 	MaxElems    int  // arrays larger than this are "unbounded allocations"
 	NoCycleStop bool // do not stop before a cyclic container is created (sacrificial processes only)
+	MaxTree     float64 // values whose expansion as a tree (shared parts counted once per reference) exceeds this are "unbounded allocations" for every operation that traverses them; 0 = 1<<18
 	steps       int64
 	reason      atomic.Value // string
 	Stopped     int32
@@ -72,6 +78,9 @@ func (s *State) stop(v *tengo.VM, why string) {
 func Install(s *State) func() {
 	if s.MaxElems == 0 {
 		s.MaxElems = 1 << 20
+	}
+	if s.MaxTree == 0 {
+		s.MaxTree = 1 << 18
 	}
 	tengo.VerifSetProbe(func(v *tengo.VM) { s.probe(v) })
 	return func() { tengo.VerifSetProbe(nil) }
@@ -120,6 +129,15 @@ func (s *State) probe(v *tengo.VM) {
 		}
 		nargs := int(code[ip+1])
 		callee := v.VerifStackAt(sp - 1 - nargs)
+		if _, compiled := callee.(*tengo.CompiledFunction); !compiled {
+			// native code may render, copy or compare its arguments as trees
+			for i := 0; i < nargs; i++ {
+				if s.tooBig(v.VerifStackAt(sp - nargs + i)) {
+					s.stop(v, "unbounded-allocation")
+					return
+				}
+			}
+		}
 		b, ok := callee.(*tengo.BuiltinFunction)
 		if !ok {
 			return
@@ -156,7 +174,18 @@ func (s *State) probe(v *tengo.VM) {
 				}
 			}
 		}
+	case opEqual, opNotEqual:
+		// Equals compares shared parts once per reference
+		if s.tooBig(v.VerifStackAt(sp-2)) && s.tooBig(v.VerifStackAt(sp-1)) {
+			s.stop(v, "unbounded-allocation")
+			return
+		}
 	case opBinaryOp:
+		// "" + x renders x
+		if s.tooBig(v.VerifStackAt(sp-2)) || s.tooBig(v.VerifStackAt(sp-1)) {
+			s.stop(v, "unbounded-allocation")
+			return
+		}
 		if ip+1 < len(code) && code[ip+1] == tokAdd {
 			l, r := v.VerifStackAt(sp-2), v.VerifStackAt(sp-1)
 			if seqLen(l)+seqLen(r) > s.MaxElems {
@@ -164,6 +193,42 @@ func (s *State) probe(v *tengo.VM) {
 			}
 		}
 	}
+}
+
+// TreeSize is the number of nodes of o expanded as a tree: a part shared by
+// k references counts k times (what String, Copy, Equals and the host-side
+// conversions traverse), computed in time linear in the number of distinct
+// containers. A self-containing value has infinite size.
+func TreeSize(o tengo.Object) float64 {
+	if !isContainer(o) {
+		return 1
+	}
+	return treeSize(o, map[tengo.Object]float64{}, map[tengo.Object]bool{})
+}
+
+// tooBig: the guard's use of TreeSize. Runs that are allowed to build
+// self-containing values (NoCycleStop) only apply operations that do not
+// traverse them, and are not judged by tree size.
+func (s *State) tooBig(o tengo.Object) bool {
+	return !s.NoCycleStop && TreeSize(o) > s.MaxTree
+}
+
+func treeSize(o tengo.Object, memo map[tengo.Object]float64, onPath map[tengo.Object]bool) float64 {
+	if o == nil || !isContainer(o) {
+		return 1
+	}
+	if onPath[o] {
+		return math.Inf(1)
+	}
+	if n, ok := memo[o]; ok {
+		return n
+	}
+	onPath[o] = true
+	n := 1.0
+	each(o, func(e tengo.Object) { n += treeSize(e, memo, onPath) })
+	delete(onPath, o)
+	memo[o] = n
+	return n
 }
 
 func seqLen(o tengo.Object) int {
